@@ -99,6 +99,15 @@ static const unsigned int epo[] = {
 	[EPO_ASTRO] = 1948085U,
 };
 
+static inline __attribute__((const, pure)) unsigned int
+__hij_yoff(hij_typ_t t, unsigned int k)
+{
+/* days before year K of a cycle, floor((K * 10631 + shift) / 30),
+ * a whole cycle is added and subtracted again because the shift of
+ * type IV is negative, the result may be -1 (mod 2^32) then */
+	return (k * 1063100U + tsh[t] + 3000U * 10631U) / 3000U - 10631U;
+}
+
 static inline __attribute__((const, pure)) mjd_t
 ht2mjd(const unsigned int *cal, size_t nm, struct ymd_s h)
 {
@@ -119,7 +128,7 @@ hij2mjd(hij_typ_t t, hij_epo_t e, struct ymd_s h)
 	const unsigned int doy = m[h.m] + h.d;
 	const unsigned int cyc = h.y / 30U;
 	const unsigned int k = h.y % 30U;
-	const unsigned int z1 = cyc * 10631U + (k * 1063100U + tsh[t]) / 3000U + doy;
+	const unsigned int z1 = cyc * 10631U + __hij_yoff(t, k) + doy;
 	return z1 + epo[e] - 2400000U;
 }
 
@@ -187,7 +196,7 @@ mjd2hij(hij_typ_t t, hij_epo_t e, mjd_t j)
 	const unsigned int cyc = (z - 1U) / 10631U;
 	const unsigned int z1 = (z - 1U) % 10631U + 1U;
 	const unsigned int k = (3000U * z1 - tsh[t]) / 1063100U;
-	const unsigned int z2 = z1 - (k * 1063100U + tsh[t]) / 3000U;
+	const unsigned int z2 = z1 - __hij_yoff(t, k);
 	/* output */
 	const unsigned int y = 30U * cyc + k;
 	/* day 355 of an intercalary year is the 30th of month 12 */
@@ -233,7 +242,7 @@ __hij_inty_p(hij_typ_t t, hij_epo_t UNUSED(e), unsigned int y)
  * type IV:  2, 5, 8, 11, 13, 16, 19, 21, 24, 27 & 30 as intercalary years */
 	const unsigned int k = y % 30U;
 	/* day 355 of year K counted from the beginning of the cycle */
-	const unsigned int z1 = (k * 1063100U + tsh[t]) / 3000U + 355U;
+	const unsigned int z1 = __hij_yoff(t, k) + 355U;
 	/* and the year that day belongs to */
 	const unsigned int kr = (3000U * z1 - tsh[t]) / 1063100U;
 	return kr == k;
